@@ -95,3 +95,8 @@ Proof. repeat split; reflexivity. Qed.
 From SymfcG Require Import SkelBasis SkelEig SkelMat.
 Theorem c03_module_skeletons_in_force : SkelBasis_as_recorded = true /\ SkelEig_as_recorded = true /\ SkelMat_as_recorded = true.
 Proof. repeat split; reflexivity. Qed.
+
+(** Further recorded sources this property's statement depends on (the sum rule over ANY index rests on the index-permutation stage): whole-function / skeleton match, regenerated on every run. *)
+From SymfcG Require Import ShapesPerm SkelPerm.
+Theorem c03_recorded_sources4_in_force : ShapesPerm_as_recorded = true /\ SkelPerm_as_recorded = true.
+Proof. repeat split; reflexivity. Qed.
